@@ -46,9 +46,9 @@ func runConc(c ConcCase) (ev.Info, error) {
 	var res *shop.CombineResult
 	comb := s.Spawn("COMBINE", func() {
 		if c.Twin == "exported" {
-			res = op.CombineBindingContextForHook(q, tasks[0], nil)
+			res = op.CombineBindingContextForHook(q, tasks[0], stopFn(c.Layout, tasks))
 		} else {
-			res = op.VerifCombine(q, tasks[0], nil)
+			res = op.VerifCombine(q, tasks[0], stopFn(c.Layout, tasks))
 		}
 	})
 	var late []task.Task
